@@ -118,3 +118,35 @@ pub fn intercept(buffer: &[u8], locator: &Locator) -> bool {
   }
   drop
 }
+
+// Receive-side tap (MessageReceiver::handle_received_packet): a partition between participants cannot be
+// expressed at the sender because SPDP is multicast (one datagram, all receivers, the sender itself included).
+// An isolated participant drops what it receives from any OTHER participant and keeps hearing itself.
+// mode 0 = off, 1 = every participant is isolated, 2 = only the listed ones (one-sided outage)
+static RX_MODE: AtomicU32 = AtomicU32::new(0);
+static RX_DROPPED: AtomicU64 = AtomicU64::new(0);
+static RX_LISTED: std::sync::Mutex<Vec<[u8; 12]>> = std::sync::Mutex::new(Vec::new());
+pub fn set_rx_isolation(on: bool) {
+  RX_MODE.store(u32::from(on), Ordering::SeqCst);
+}
+pub fn set_rx_isolation_of(prefixes: &[[u8; 12]]) {
+  *RX_LISTED.lock().unwrap() = prefixes.to_vec();
+  RX_MODE.store(2, Ordering::SeqCst);
+}
+pub fn rx_dropped() -> u64 {
+  RX_DROPPED.load(Ordering::SeqCst)
+}
+pub fn rx_blocked(own_prefix: &[u8], datagram: &[u8]) -> bool {
+  let mode = RX_MODE.load(Ordering::Relaxed);
+  if mode == 0 || datagram.len() < 20 || own_prefix.len() != 12 {
+    return false;
+  }
+  if mode == 2 && !RX_LISTED.lock().unwrap().iter().any(|p| p[..] == *own_prefix) {
+    return false;
+  }
+  let foreign = datagram[8..20] != *own_prefix;
+  if foreign {
+    RX_DROPPED.fetch_add(1, Ordering::Relaxed);
+  }
+  foreign
+}
